@@ -202,6 +202,7 @@ EDGE_LENGTHS = [0, 1, 2, 15, 16, 17, 19, 20, 21, 31, 32, 33, 54, 55, 56, 57, 63,
 def wire_compare(ck, observed):
     """STUB FOR THE LEAD -- wire-level end-to-end comparison (DESIGN §5 C17, not called by run()).
 
+    (Now called by _wire_workload below.)
     `observed` is an iterable of dicts captured at storage servers during E2 grid runs:
         {"op": "allocate_buckets" | "add_lease" | "slot_testv_and_readv_and_writev",
          "lease_secret": <client's 32-byte private/secret>, "storage_index": bytes(16),
@@ -224,9 +225,79 @@ def wire_compare(ck, observed):
                          "derivation" % rec.get("op"), rec)
         if rec.get("write_enabler") is not None and rec.get("writekey") is not None:
             ck.mon("wire-write-enabler-oracle")
-            if rec["write_enabler"] != Ref.ssk_write_enabler_hash(rec["writekey"], seed):
+            if rec["write_enabler"] != Ref.ssk_write_enabler_hash(rec["writekey"], rec.get("we_seed", seed)):
                 ck.violation("wire-write-enabler", "write enabler on the wire is not the specified "
                              "derivation from (writekey, server nodeid)", rec)
+
+
+def _wire_workload(ck):
+    """Run uploads, mutable creates/overwrites, a directory and lease-adding checks on the
+    in-process grid and compare every secret that ARRIVES at a storage server with the
+    reference derivation from (client lease secret, storage index, server lease seed)."""
+    import os
+    from vf.grid import VGrid, KEYPOOL
+    from allmydata.immutable.upload import Data
+    from allmydata.mutable.publish import MutableData
+    from allmydata.monitor import Monitor
+    from allmydata.util import base32 as rb32
+    from allmydata import uri as _uri
+    rng = ck.rng("wire")
+    ncases = 6 if ck.tier == "quick" else 40
+    for case in range(ncases):
+        if not ck.mine(case):
+            continue
+        KEYPOOL.rewind()
+        g = VGrid(nservers=rng.randint(2, 6), seed=rng.getrandbits(32), keep_log=False)
+        try:
+            observed = []
+            writekeys = {}   # storage index -> writekey
+            c = g.make_client(k=rng.randint(1, 2), happy=1, n=rng.randint(2, 4))
+            with open(os.path.join(c.config.get_config_path("private"), "secret"), "rb") as f:
+                lease_secret = rb32.a2b(f.read().strip())
+
+            def pre(vs, meth, args, rec):
+                base = {"op": meth, "lease_secret": lease_secret, "lease_seed": vs.iserver.get_lease_seed(),
+                        "we_seed": vs.iserver.get_foolscap_write_enabler_seed()}
+                if meth == "allocate_buckets":
+                    observed.append(dict(base, storage_index=args[0], renew=args[1], cancel=args[2]))
+                elif meth == "add_lease":
+                    observed.append(dict(base, storage_index=args[0], renew=args[1], cancel=args[2]))
+                elif meth == "slot_testv_and_readv_and_writev":
+                    we, renew, cancel = args[1]
+                    observed.append(dict(base, storage_index=args[0], renew=renew, cancel=cancel,
+                                         write_enabler=we, writekey=writekeys.get(args[0])))
+            g.pre_delivery = pre
+            st, res = g.wait(c.upload(Data(rng.randbytes(rng.randint(56, 900)), convergence=b"")))
+            if st == "ok":
+                node = c.create_node_from_uri(res.get_uri())
+                g.wait(node.check(Monitor(), verify=False, add_lease=True))
+            for fmt in (None, "mdmf"):
+                d = c.create_mutable_file(MutableData(rng.randbytes(rng.randint(1, 300))))
+                st, n = g.wait(d)
+                if st != "ok":
+                    continue
+                u = _uri.from_string(n.get_uri())
+                writekeys[u.get_storage_index()] = u.writekey
+                # the create itself happened before we knew the writekey: judge it retroactively
+                for rec in observed:
+                    if rec["op"] == "slot_testv_and_readv_and_writev" and rec.get("writekey") is None:
+                        rec["writekey"] = writekeys.get(rec["storage_index"])
+                g.wait(n.overwrite(MutableData(rng.randbytes(rng.randint(1, 300)))))
+                g.wait(n.check(Monitor(), verify=False, add_lease=True))
+            st, dn = g.wait(c.create_dirnode())
+            if st == "ok":
+                du = _uri.from_string(dn.get_uri()).get_filenode_cap()
+                writekeys[du.get_storage_index()] = du.writekey
+                for rec in observed:
+                    if rec["op"] == "slot_testv_and_readv_and_writev" and rec.get("writekey") is None:
+                        rec["writekey"] = writekeys.get(rec["storage_index"])
+                g.wait(dn.set_uri("child", None, res.get_uri() if hasattr(res, "get_uri") else None))
+            wire_compare(ck, observed)
+            ck.hit("wire-records", len(observed))
+            ck.case("wire", key=("wire", case, len(observed)), nontrivial=bool(observed),
+                    sample={"records": len(observed), "ops": sorted(set(r["op"] for r in observed))})
+        finally:
+            g.close()
 
 
 # --------------------------------------------------------------------------
@@ -789,7 +860,15 @@ def run(ck):
             shutil.rmtree(base, ignore_errors=True)
         ck.case("client-secret-file", key=(lease_secret, conv))
 
-    ck.require_monitor("oracle-self-check", "derivation-oracle", "published-vector-oracle")
+    # ---- wire-level end-to-end comparison on a running in-process grid (added by the lead)
+    env.set_thread_sync(False)
+    try:
+        _wire_workload(ck)
+    finally:
+        env.set_thread_sync(True)
+
+    ck.require_monitor("oracle-self-check", "derivation-oracle", "published-vector-oracle",
+                       "wire-lease-oracle", "wire-write-enabler-oracle")
     ck.require_reach("tagged_hash", "tagged_pair_hash", "storage_index_hash", "ssk_write_enabler_hash",
                      "bucket_renewal_secret_hash", "bucket_cancel_secret_hash", "convergence_hash",
                      "mutable_rwcap_key_hash", "derive_mutable_keys.writekey",
@@ -797,7 +876,6 @@ def run(ck):
                      "MutableFileNode.get_write_enabler", "SecretHolder.get_renewal_secret")
     ck.exhaustive = False
     ck.assumptions.append("tags that no prose specification spells out are pinned from the hashutil.py tag table of the pinned tree")
-    ck.assumptions.append("wire-level comparison on a running grid (wire_compare) is not part of this run")
 
 
 # MUST_CATCH (scratch copies under /var/tmp, VF_REPO=..., quick tier; see final report of the author)
